@@ -272,7 +272,7 @@ def exHistory : List Op :=
     .upload 1 "va" ".mp4" exVideo, .upload 1 "aa" ".mp4" exAudio, .upload 2 "vb" ".mp4" exVideo,
     .index 1, .index 2, .index 3,
     .editStream 1 "alpha" "A" "va", .editStream 2 "bravo" "B" "vb",
-    .addMps "mpsone" "MPS" [⟨none, "p1", 1, 1, [1, 2]⟩, ⟨none, "p2", 2, 2, [1]⟩],
+    .addMps "mpsone" "MPS" [⟨none, "p1", 1, 1, [1, 2], true⟩, ⟨none, "p2", 2, 2, [1], true⟩],
     .upload 2 "va" ".mp4" exVideo,          -- refused: the name belongs to stream 1
     .delKey 1, .upload 1 "aa" ".mp4" exVideo, .delStream 2 ]
 
@@ -304,7 +304,7 @@ def delMediaOld (s : St) (f : MediaFile) : St := dropFile s f
 /-- one stream with an indexed timing-reference file, played by one period -/
 def exSmall : St := exec init
   [ .addStream "alpha" "A", .upload 1 "va" ".mp4" exVideo, .index 1, .editStream 1 "alpha" "A" "va",
-    .addMps "mpsone" "MPS" [⟨none, "p1", 1, 1, [1]⟩] ]
+    .addMps "mpsone" "MPS" [⟨none, "p1", 1, 1, [1], true⟩] ]
 
 example : Inv exSmall := inv_reachable_init _
 
